@@ -30,6 +30,10 @@ fn connect_from(src: Ipv4Addr, dst: SocketAddr, linger_reset: bool) -> std::io::
             SocketAddr::V4(a) => *a.ip(),
             _ => Ipv4Addr::LOCALHOST,
         };
+        if SMALL_RCVBUF.load(std::sync::atomic::Ordering::SeqCst) {
+            let sz: libc::c_int = 4096;
+            libc::setsockopt(fd, libc::SOL_SOCKET, libc::SO_RCVBUF, &sz as *const _ as *const libc::c_void, 4);
+        }
         let d = mk(dip, dst.port());
         if libc::connect(fd, &d as *const _ as *const libc::sockaddr, std::mem::size_of::<libc::sockaddr_in>() as u32) != 0 {
             let e = std::io::Error::last_os_error();
@@ -43,6 +47,9 @@ fn connect_from(src: Ipv4Addr, dst: SocketAddr, linger_reset: bool) -> std::io::
         Ok(TcpStream::from_raw_fd(fd))
     }
 }
+
+/// the slow-reader part connects with a 4 KiB receive buffer (set before connect, so the window is small from the start)
+static SMALL_RCVBUF: std::sync::atomic::AtomicBool = std::sync::atomic::AtomicBool::new(false);
 
 struct Resp {
     status: u16,
@@ -171,6 +178,89 @@ fn register_all(rec: &metrics_exporter_prometheus::PrometheusRecorder) {
     let h = rec.register_histogram(&Key::from_name("scrape_h"), &META);
     h.record(1.0);
     h.record(3.0);
+}
+
+/// A scraper that reads slowly: the rendering (about 12 MB) does not fit into the socket buffers, the client reads the
+/// response head, stalls for 12 s and then reads the rest. It is a GET like any other: status 200 and the whole body the
+/// head announces (the exporter may take as long as the client needs; it may not cut the response short).
+fn slow_reader_part(res: &mut PartResult) {
+    res.engine = "E4 scripted history: a scraper that stalls for 12 s in the middle of a large response".into();
+    res.executions = 1;
+    res.states = 1;
+    res.distinct_outcomes = 1;
+    let ex = match start(&[]) {
+        Ok(e) => e,
+        Err((sig, msg)) => {
+            res.violation(&sig, msg, json!({}));
+            return;
+        }
+    };
+    let pad = "x".repeat(4000);
+    for i in 0..3000 {
+        ex.rec.register_counter(&Key::from_parts(format!("big_{}", i), vec![Label::new("pad", pad.clone())]), &META).increment(1);
+    }
+    res.transitions += 3000;
+    SMALL_RCVBUF.store(true, std::sync::atomic::Ordering::SeqCst);
+    let s = connect_from(Ipv4Addr::LOCALHOST, ex.addr, false);
+    SMALL_RCVBUF.store(false, std::sync::atomic::Ordering::SeqCst);
+    let mut s = match s {
+        Ok(s) => s,
+        Err(e) => {
+            res.error = Some(format!("connect: {}", e));
+            return;
+        }
+    };
+    s.set_read_timeout(Some(Duration::from_secs(30))).unwrap();
+    let cfg = json!({"slow_reader": true});
+    if s.write_all(b"GET /metrics HTTP/1.1\r\nHost: verif\r\nConnection: close\r\n\r\n").is_err() {
+        res.violation("client-not-served", "the request could not be written".into(), cfg);
+        return;
+    }
+    // read the head
+    let mut buf: Vec<u8> = Vec::new();
+    let mut tmp = [0u8; 2048];
+    let head_end = loop {
+        if let Some(p) = buf.windows(4).position(|w| w == b"\r\n\r\n") {
+            break p + 4;
+        }
+        match s.read(&mut tmp) {
+            Ok(0) | Err(_) => {
+                res.violation("client-not-served", format!("no response head (got {} bytes)", buf.len()), cfg);
+                return;
+            }
+            Ok(n) => buf.extend_from_slice(&tmp[..n]),
+        }
+    };
+    let head = String::from_utf8_lossy(&buf[..head_end]).to_ascii_lowercase();
+    let status: u16 = head.split(' ').nth(1).and_then(|x| x.parse().ok()).unwrap_or(0);
+    let clen: Option<usize> = head.lines().find_map(|l| l.strip_prefix("content-length:").and_then(|v| v.trim().parse().ok()));
+    res.transitions += 1;
+    std::thread::sleep(Duration::from_secs(12));
+    res.transitions += 1;
+    let mut big = vec![0u8; 1 << 16];
+    let mut err: Option<String> = None;
+    loop {
+        match s.read(&mut big) {
+            Ok(0) => break,
+            Ok(n) => buf.extend_from_slice(&big[..n]),
+            Err(e) => {
+                err = Some(e.to_string());
+                break;
+            }
+        }
+    }
+    let body = &buf[head_end..];
+    let complete = match clen {
+        Some(n) => body.len() == n,
+        None => head.contains("transfer-encoding: chunked") && body.ends_with(b"0\r\n\r\n"),
+    };
+    if status != 200 || !complete {
+        res.violation("response-cut-short", format!("a scraper read the head of a large response (status {}, content-length {:?}), stalled for 12 s and read on: it received {} body bytes{} before the exporter closed the connection; the response announced more", status, clen, body.len(), err.map(|e| format!(" (then: {})", e)).unwrap_or_default()), cfg);
+    } else if !body.windows(8).any(|w| w == b"big_2999") && clen.is_some() {
+        res.violation("response-cut-short", "the body has the announced length but does not hold the last series".into(), cfg);
+    }
+    res.sample(json!({"history": "GET /metrics (about 12 MB); read the head; stall 12 s; read to the end", "expected": "status 200 and the whole announced body"}));
+    drop(ex);
 }
 
 /// An exporter that has no metric yet (a scrape right after start-up, or after everything idled out) still serves:
@@ -844,6 +934,7 @@ fn parts(ctx: &Ctx) -> Vec<PartSpec> {
     v.push(PartSpec::new("ipv6-loopback", json!({"ipv6": true})).budget(b));
     v.push(PartSpec::new("accept-out-of-descriptors", json!({"fds": true})).budget(b));
     v.push(PartSpec::new("empty-registry", json!({"empty": true})).budget(b));
+    v.push(PartSpec::new("slow-reader-12s", json!({"slow": true})).budget(b));
     v
 }
 
@@ -853,6 +944,8 @@ fn run(ctx: &Ctx, spec: &PartSpec) -> PartResult {
     vseq::quiet_panics();
     if spec.arg["fds"].as_bool() == Some(true) {
         fd_exhaustion_part(&mut res);
+    } else if spec.arg["slow"].as_bool() == Some(true) {
+        slow_reader_part(&mut res);
     } else if spec.arg["empty"].as_bool() == Some(true) {
         empty_registry_part(&mut res);
     } else if spec.arg["ipv6"].as_bool() == Some(true) {
@@ -876,7 +969,7 @@ fn main() {
     driver::main(CheckDef {
         prop: "C18",
         level: "fault_enumeration",
-        rule: "allowlists = none and all subsets of size 1-2 (thorough: ordered pairs and subsets of size 3) of {127.0.0.1 (plain address), 127.0.0.2/32, 127.0.0.0/30, 127.0.1.0/24, 10.0.0.0/8, ::1/128, ::/0, 0.0.0.0/0} x peers bound to {127.0.0.1,.2,.3,.4, 127.0.1.0, 127.0.1.255, 127.0.2.0, 127.1.1.1} x paths {/, /metrics, /health, /healthz; from two of the peers also a 9 kB path and a 60 kB query string}, one request each against a fresh real exporter (builder.build() on a tokio runtime; every allowlist given once after and once before the listen address); oracle: independent CIDR arithmetic; inside => 200 and the body parses (strict parser) to exactly the recorded state, /health => OK; outside => 403 with an empty body; plus all disturbance sequences of length <= 2 (thorough 3) over {garbage bytes, half a request then idle, connect + RST, 8 concurrent scrapers, 4 refused scrapes, a silent connection held open by a refused peer, a keep-alive connection idling after its answer held by a refused peer and by an allowed peer} each followed by probes that must be served; a scripted fault history in which accept() itself fails for lack of file descriptors (EMFILE) and descriptors are then released; plus an exporter listening on [::1] scraped from ::1 under no allowlist and all subsets of size 1-2 of {::1, ::1/128, ::/64, ::/8, fe80::/10, 2001:db8::/32, 127.0.0.1, 0.0.0.0/8} (an IPv4 network never admits an IPv6 peer); plus all sequences (depth <= 3 quick / 5 thorough) over {record, scrape, wait for the exporter's periodic upkeep task (15 ms period)}: every scrape reports exactly the samples recorded so far; distinct_nontrivial = distinct (allowlist, peer, outcome) / (sequence, outcome) cases; plus exporters without any metric: /metrics, / and /health inside and outside the allowlist before the first metric (200 with an empty exposition / 403) and again after metrics were registered",
+        rule: "allowlists = none and all subsets of size 1-2 (thorough: ordered pairs and subsets of size 3) of {127.0.0.1 (plain address), 127.0.0.2/32, 127.0.0.0/30, 127.0.1.0/24, 10.0.0.0/8, ::1/128, ::/0, 0.0.0.0/0} x peers bound to {127.0.0.1,.2,.3,.4, 127.0.1.0, 127.0.1.255, 127.0.2.0, 127.1.1.1} x paths {/, /metrics, /health, /healthz; from two of the peers also a 9 kB path and a 60 kB query string}, one request each against a fresh real exporter (builder.build() on a tokio runtime; every allowlist given once after and once before the listen address); oracle: independent CIDR arithmetic; inside => 200 and the body parses (strict parser) to exactly the recorded state, /health => OK; outside => 403 with an empty body; plus all disturbance sequences of length <= 2 (thorough 3) over {garbage bytes, half a request then idle, connect + RST, 8 concurrent scrapers, 4 refused scrapes, a silent connection held open by a refused peer, a keep-alive connection idling after its answer held by a refused peer and by an allowed peer} each followed by probes that must be served; a scripted fault history in which accept() itself fails for lack of file descriptors (EMFILE) and descriptors are then released; plus an exporter listening on [::1] scraped from ::1 under no allowlist and all subsets of size 1-2 of {::1, ::1/128, ::/64, ::/8, fe80::/10, 2001:db8::/32, 127.0.0.1, 0.0.0.0/8} (an IPv4 network never admits an IPv6 peer); plus all sequences (depth <= 3 quick / 5 thorough) over {record, scrape, wait for the exporter's periodic upkeep task (15 ms period)}: every scrape reports exactly the samples recorded so far; distinct_nontrivial = distinct (allowlist, peer, outcome) / (sequence, outcome) cases; plus exporters without any metric: /metrics, / and /health inside and outside the allowlist before the first metric (200 with an empty exposition / 403) and again after metrics were registered; plus a scraper with a 4 KiB receive buffer that reads the head of a 12 MB rendering, stalls for 12 s and reads on: status 200 and the whole announced body",
         assumptions: &["tokio / hyper task scheduling runs free: request histories are enumerated, not the server's internal interleavings", "a response is awaited 3 s and then once more for 30 s before 'not served' is reported"],
         parts,
         run,
